@@ -325,6 +325,15 @@ def showStore (m : Store) : String :=
 def showSRes (r : SRes UInt16 UInt64) : String :=
   s!"{showSOut r.out} calls={showSTrace r.tr} store={showStore r.st}"
 
+def showIterk (r : SRes UInt16 Unit) (m : Store) : String :=
+  let keys := match r.out with
+    | .iter d _ => "[" ++ " ".intercalate (d.map fun (x : UInt16 × Unit) => toString x.1.toNat) ++ "]"
+    | _ => "[]"
+  let st := match r.out with
+    | .iter _ (some e) => showSErr e
+    | _ => "ok"
+  s!"iterk {st} {keys} calls={showSTrace r.tr} store={showStore m}"
+
 def sstepLineK (KC : Codec UInt16) (VC : Codec UInt64) (m : Store) (toks : List String) : Store × String :=
   match toks with
   | ["rawset", k, v] =>
@@ -338,14 +347,7 @@ def sstepLineK (KC : Codec UInt16) (VC : Codec UInt64) (m : Store) (toks : List 
   | ["iterk", p, d, stop, f] =>
     match unhex p, (if d == "fwd" then some false else if d == "bwd" then some true else none), stop.toNat?, parseSFaults f with
     | some p, some bwd, some stop, some F =>
-      let r := siterateKeys KC m p bwd stop F
-      let keys := match r.out with
-        | .iter d _ => "[" ++ " ".intercalate (d.map fun (x : UInt16 × Unit) => toString x.1.toNat) ++ "]"
-        | _ => "[]"
-      let st := match r.out with
-        | .iter _ (some e) => showSErr e
-        | _ => "ok"
-      (m, s!"iterk {st} {keys} calls={showSTrace r.tr} store={showStore m}")
+      (m, showIterk (siterateKeys KC m p bwd stop F) m)
     | _, _, _, _ => (m, "bad-op")
   | ["delp", p, f] =>
     match unhex p, parseSFaults f with
